@@ -13,7 +13,9 @@ if [ -n "$(git -C /repo status --porcelain -- guard guard-lambda guard-ffi)" ]; 
     echo "run_seeded: /repo has uncommitted source changes; refusing" >&2; exit 2
 fi
 restore() { git -C /repo checkout -- . ; }
-trap restore EXIT
+# on exit: undo the change AND rebuild, so that /verif/target never keeps a binary of a changed tree
+finish() { restore; ./check build >/dev/null 2>&1; }
+trap finish EXIT
 mkdir -p /verif/seeded_results
 for id in "${ids[@]}"; do
     p=/verif/seeded/$id/patch.diff
